@@ -221,6 +221,16 @@ class Interp(object):
 
   # ---- expressions ----
   def binop(self, op, a, b):
+    if isinstance(op, (ast.RShift, ast.LShift, ast.BitXor, ast.BitAnd, ast.BitOr)):
+      # bit operations: operands are z3 bit-vectors (machine words) or int constants
+      bv = a if isinstance(a, z3.BitVecRef) else b if isinstance(b, z3.BitVecRef) else None
+      if bv is None:
+        raise Unsupported('bit operation on unbounded ints')
+      n = bv.size()
+      a = a if isinstance(a, z3.BitVecRef) else z3.BitVecVal(a, n)
+      b = b if isinstance(b, z3.BitVecRef) else z3.BitVecVal(b, n)
+      return {ast.RShift: lambda: z3.LShR(a, b), ast.LShift: lambda: a << b, ast.BitXor: lambda: a ^ b,
+              ast.BitAnd: lambda: a & b, ast.BitOr: lambda: a | b}[type(op)]()
     if isinstance(op, ast.Add):
       a, b = _coerce_pair(a, b)
       return a + b
